@@ -162,3 +162,48 @@ pub fn check_no_panics(context: &str) -> Result<(), Fail> {
     }
     Ok(())
 }
+
+/// A started network with its recorder.
+pub struct Node {
+    pub net: Network,
+    pub rec: Arc<Recorder>,
+    pub spec: NodeSpec,
+}
+
+impl Node {
+    pub fn id(&self) -> PeerId {
+        self.spec.peer_id()
+    }
+    pub fn addr(&self) -> SocketAddr {
+        self.spec.addr
+    }
+}
+
+impl Sim {
+    /// Starts node `idx` with a recorder service and the given spec.
+    pub fn node_with(&self, spec: NodeSpec) -> Result<Node, Fail> {
+        let rec = Recorder::new(self.fabric.epoch());
+        let net = self
+            .start_node(&spec, rec.service())
+            .map_err(|e| Fail::Inconclusive(format!("could not start node at {}: {e}", spec.addr)))?;
+        if net.peer_id() != spec.peer_id() {
+            return Err(Fail::violation(
+                "c01:own-id",
+                format!("network reports peer id {} for a key whose public key is {}", net.peer_id(), spec.peer_id()),
+            ));
+        }
+        Ok(Node { net, rec, spec })
+    }
+    pub fn node(&self, idx: u8) -> Result<Node, Fail> {
+        self.node_with(NodeSpec::new(idx))
+    }
+}
+
+/// Build a request whose body starts with a control block.
+pub fn ctl_request(route: &str, headers: &[(String, String)], ctl: &Ctl, body_len: usize) -> anemo::Request<bytes::Bytes> {
+    let mut r = anemo::Request::new(ctl.encode(body_len)).with_route(route.to_string());
+    for (k, v) in headers {
+        r.headers_mut().insert(k.clone(), v.clone());
+    }
+    r
+}
